@@ -321,6 +321,14 @@ func Catalogue() []CatEntry {
 		v := &x
 		return flat(z.Ptr(z.String().Min(5, o...)).Validate(&v, eo...))
 	})
+	vroot("ptr.ptr.not_nil", func(eo []z.ExecOption, o []z.TestOption) []*z.ZogIssue {
+		var v **string
+		return flat(z.Ptr(z.Ptr(z.String())).NotNil(o...).Validate(&v, eo...))
+	})
+	es = append(es, CatEntry{Name: "ptr.ptr.not_nil", Run: func(eo []z.ExecOption, o []z.TestOption) []*z.ZogIssue {
+		var d struct{ A **string }
+		return flat(z.Struct(z.Schema{"a": z.Ptr(z.Ptr(z.String())).NotNil(o...)}).Parse(map[string]any{}, &d, eo...))
+	}})
 	vroot("ptr.not_nil", func(eo []z.ExecOption, o []z.TestOption) []*z.ZogIssue {
 		var v *string
 		return flat(z.Ptr(z.String()).NotNil(o...).Validate(&v, eo...))
